@@ -23,7 +23,8 @@ LEVEL = 'model_checking'
 
 LONG = 'L' * 90
 STRINGS = ['', 'a', '<', '>', '&', '"', "'", '"\'', '\n', '\t', ' x ', 'é', '&amp;', ']]>',
-           '<a b="c">', 'a\nb', '&#10;', '\U0001f600', LONG, 'x' * 30 + '"' + 'y' * 50, '-', 'a-']
+           '<a b="c">', 'a\nb', '&#10;', '\U0001f600', LONG, 'x' * 30 + '"' + 'y' * 50, '-', 'a-',
+           'say "hi" now', '" ', ' "', "' ", '"\' "x', 'a="b" c=\'d\'', 'x"\ny', "it's \"q\" "]
 ATTR_ONLY = ['\r', 'a\r\nb']                 # carriage returns: attributes only (statement)
 COMMENT_STRINGS = [s for s in STRINGS if '--' not in s and not s.endswith('-')] + ['a - b']
 NAMES = ['a', 'c:type']
@@ -35,6 +36,11 @@ def attr_sets(tier):
         out.append([('a', s)])
     out.append([('a', None)])
     out.append([('a', None), ('b', None)])
+    for s in STRINGS + ATTR_ONLY:
+        # long enough to be wrapped at every depth: the interesting value first, in the middle and last
+        out.append([('a', s), ('b', LONG)])
+        out.append([('a', LONG), ('b', s)])
+        out.append([('a', 'w' * 40), ('b', s), ('c', 'z' * 40)])
     for s in ['"', '<', '\n', LONG, '\r']:
         out.append([('a', 'v'), ('b', None), ('c:type', s)])
         out.append([('xml:space', 'preserve'), ('a', s), ('b', s)])
@@ -68,6 +74,9 @@ def op_menu(tier):
     for s in STRINGS:
         ops.append(('text', s))
     ops += [('pop',), ('exit',), ('raise',)]
+    # operations that fail INSIDE the writer (a non-string attribute value): the element is never opened
+    for n in NAMES:
+        ops += [('badpush', n), ('badenter', n), ('badtag', n)]
     return ops
 
 
@@ -76,7 +85,7 @@ SMALL_MENU = [
     ('enter', 'a', [('a', None)]), ('enter', 'c:type', [('b', "'")]),
     ('tag', 'a', [('a', LONG), ('b', LONG)], '<&>'), ('tag', 'a', [], ''), ('tag', 'c:type', [('a', '\t')], None),
     ('comment', 'c <'), ('text', ' x '), ('text', '&<'),
-    ('pop',), ('exit',), ('raise',),
+    ('pop',), ('exit',), ('raise',), ('badpush', 'a'), ('badenter', 'a'),
 ]
 
 
@@ -84,6 +93,8 @@ def enabled(stack, op, maxdepth):
     k = op[0]
     if k in ('push', 'enter'):
         return len(stack) < maxdepth
+    if k in ('badpush', 'badenter', 'badtag'):
+        return True
     if k == 'pop':
         return bool(stack) and stack[-1][1] == 'push'
     if k in ('exit', 'raise'):
@@ -122,7 +133,8 @@ def model_run(ops):
         elif k in ('pop', 'exit'):
             cur.pop()
             stack.pop()
-        elif k == 'raise':
+        elif k in ('raise', 'badpush', 'badenter', 'badtag'):
+            # (for the bad* ops the writer itself raises while serialising the tag: nothing is opened or written)
             # the exception unwinds every enclosing tagcontext up to the nearest
             # push frame (where the harness catches it); each must close its element
             while stack and stack[-1][1] == 'ctx':
@@ -141,6 +153,10 @@ def model_run(ops):
 
 
 # --------------------------------------------------------- implementation ---
+class _WriterAccepted(Exception):
+    pass
+
+
 class _Unwind(Exception):
     def __init__(self, i):
         self.i = i
@@ -175,6 +191,19 @@ def impl_run(ops, whitespace=True):
                 return i + 1
             if k == 'raise':
                 raise _Unwind(i + 1)
+            if k in ('badpush', 'badenter', 'badtag'):
+                bad = [('a', 'ok'), ('b', 5)]
+                try:
+                    if k == 'badpush':
+                        w.push_tag(op[1], bad)
+                    elif k == 'badtag':
+                        w.write_tag(op[1], bad)
+                    else:
+                        with w.tagcontext(op[1], bad):
+                            pass
+                except (TypeError, AttributeError):
+                    raise _Unwind(i + 1)
+                raise _WriterAccepted('%s with a non-string attribute value did not raise' % k)
             if k == 'tag':
                 w.write_tag(op[1], list(op[2]), op[3])
             elif k == 'text':
@@ -324,6 +353,8 @@ def check_history(ops, ws=True):
     model, _ = model_run(ops)
     try:
         data = impl_run(ops, ws)
+    except _WriterAccepted:
+        return None, None       # a writer that accepts non-string values: outside the statement (UNSPECIFIED)
     except Exception as e:
         return 'writer raised %s: %s' % (type(e).__name__, e), None
     try:
